@@ -94,10 +94,10 @@ type evmPCall struct {
 }
 
 type evmInstr struct {
-	Op     string     `json:"op"` // sstore log revert balance call pcall
+	Op     string     `json:"op"` // sstore log revert balance selfdestruct call pcall
 	K      uint64     `json:"k,omitempty"`
 	V      uint64     `json:"v,omitempty"`
-	Addr   int        `json:"addr,omitempty"` // balance target / call target (actor)
+	Addr   int        `json:"addr,omitempty"` // balance target / call target / selfdestruct beneficiary (actor)
 	Value  string     `json:"value,omitempty"`
 	Catch  bool       `json:"catch,omitempty"`
 	Record bool       `json:"record,omitempty"`
@@ -289,6 +289,7 @@ type evmObs struct {
 	Reward   []string   `json:"reward"`   // pending (truncated) rewards of actors 0..4
 	Storage  [][]string `json:"storage"`  // [contract, slot, value] non-zero
 	Grants   []string   `json:"grants"`   // remaining limit of O's delegate/undelegate grant per grantee "g:kind:limit"
+	Alive    []bool     `json:"alive"`    // the auth account of the contracts C1..C3 exists
 }
 
 func (e *evmEnv) pendingReward(a int) (out *big.Int) {
@@ -360,6 +361,9 @@ func (e *evmEnv) observe(ok bool, errStr string, supply0 *big.Int, slots map[[2]
 			o.Storage = append(o.Storage, []string{fmt.Sprint(k[0]), fmt.Sprint(k[1]), new(big.Int).SetBytes(v.Bytes()).String()})
 		}
 	}
+	for a := aC1; a <= aC3; a++ {
+		o.Alive = append(o.Alive, e.App.AccountKeeper.GetAccount(e.Ctx, accOf(a)) != nil)
+	}
 	o.Grants = []string{}
 	for g := aP; g <= aC3; g++ {
 		for _, kind := range []string{"delegate", "undelegate", "transfer"} {
@@ -428,7 +432,7 @@ func (e *evmEnv) packP(p *evmPCall) (target int, data []byte) {
 // program can touch (contract actor, key), given the contract `self` executing it.
 func (e *evmEnv) encodeBody(self int, body []evmInstr, slots map[[2]uint64]bool) []byte {
 	out := []byte{}
-	for _, in := range body {
+	for i, in := range body {
 		p := uint64(len(out))
 		switch in.Op {
 		case "sstore":
@@ -440,6 +444,12 @@ func (e *evmEnv) encodeBody(self int, body []evmInstr, slots map[[2]uint64]bool)
 			out = append(out, encRevert()...)
 		case "balance":
 			out = append(out, encBalance(evmAddr[in.Addr].Bytes())...)
+		case "selfdestruct":
+			// SELFDESTRUCT halts the frame: it is always the last instruction of a body (the model relies on it)
+			if i != len(body)-1 {
+				panic("selfdestruct must be the last instruction of a body")
+			}
+			out = append(out, encSelfdestruct(evmAddr[in.Addr].Bytes())...)
 		case "call", "pcall":
 			var flags byte
 			if in.Catch {
@@ -490,10 +500,12 @@ func (t *treeTracer) CaptureEnd(_ []byte, _ uint64, _ time.Duration, err error) 
 		t.root.Err = err.Error()
 	}
 }
-func (t *treeTracer) CaptureEnter(_ vm.OpCode, _ common.Address, to common.Address, _ []byte, _ uint64, _ *big.Int) {
+func (t *treeTracer) CaptureEnter(typ vm.OpCode, _ common.Address, to common.Address, _ []byte, _ uint64, _ *big.Int) {
 	f := &frameEv{To: to}
 	top := t.stack[len(t.stack)-1]
-	top.Children = append(top.Children, f)
+	if typ != vm.SELFDESTRUCT { // the interpreter reports SELFDESTRUCT as a pseudo-frame: not a call
+		top.Children = append(top.Children, f)
+	}
 	t.stack = append(t.stack, f)
 }
 func (t *treeTracer) CaptureExit(_ []byte, _ uint64, err error) {
@@ -651,6 +663,9 @@ func coqBody(body []evmInstr) string {
 		case "balance":
 			xs = append(xs, fmt.Sprintf("IBalance %s", coqN(in.Addr)))
 			off += 33
+		case "selfdestruct":
+			xs = append(xs, fmt.Sprintf("ISelfdestruct %s", coqN(in.Addr)))
+			off += 33
 		case "call":
 			rec := "None"
 			if in.Record {
@@ -701,8 +716,12 @@ func (o evmObs) coq() string {
 	for _, s := range o.Storage {
 		st = append(st, fmt.Sprintf("(%s%%N, %s%%Z, %s%%Z)", s[0], s[1], s[2]))
 	}
-	return fmt.Sprintf("(mkeobs %s %s %s %s %s %s %s)", coqBool(o.OK), coqStrs(o.Bal), coqZ(bigOf(o.Supply)),
-		coqStrs(o.Deleg), coqStrs(o.Unbond), coqList(ws), coqList(st))
+	al := []string{}
+	for _, a := range o.Alive {
+		al = append(al, coqBool(a))
+	}
+	return fmt.Sprintf("(mkeobs %s %s %s %s %s %s %s %s)", coqBool(o.OK), coqStrs(o.Bal), coqZ(bigOf(o.Supply)),
+		coqStrs(o.Deleg), coqStrs(o.Unbond), coqList(ws), coqList(st), coqList(al))
 }
 
 func evmOrder() string {
@@ -830,10 +849,11 @@ func evmRunCase(id string, in evmInput, prop string) Case {
 	msgs := []string{}
 	// ---- C02: supply unchanged, closed-system conservation
 	if prop == "C02" || prop == "all" {
-		if obs.Supply != "0" {
-			msgs = append(msgs, fmt.Sprintf("C02: total supply of the native coin changed by %s", obs.Supply))
+		m, burned := evmBalanceOracle(e, in, pre, obs, tr.root)
+		if want := new(big.Int).Neg(burned).String(); obs.Supply != want {
+			msgs = append(msgs, fmt.Sprintf("C02: total supply of the native coin changed by %s (sanctioned burn by self-destructed contracts: %s)", obs.Supply, burned))
 		}
-		if m := evmBalanceOracle(e, in, pre, obs, tr.root); m != "" {
+		if m != "" {
 			msgs = append(msgs, "C02: "+m)
 		}
 	}
@@ -942,6 +962,9 @@ func evmDiff(want, got evmObs, withOK bool) string {
 	if fmt.Sprint(want.Storage) != fmt.Sprint(got.Storage) {
 		d = append(d, fmt.Sprintf("storage %v vs %v", want.Storage, got.Storage))
 	}
+	if fmt.Sprint(want.Alive) != fmt.Sprint(got.Alive) {
+		d = append(d, fmt.Sprintf("contract accounts exist %v vs %v", want.Alive, got.Alive))
+	}
 	if fmt.Sprint(want.Grants) != fmt.Sprint(got.Grants) {
 		d = append(d, fmt.Sprintf("grants %v vs %v", want.Grants, got.Grants))
 	}
@@ -953,7 +976,14 @@ func evmDiff(want, got evmObs, withOK bool) string {
 // property's own reading: value moves with successful calls, a successful
 // precompile call has the bank effect of the native message, and a frame that
 // failed (per the trace) has no effect.
-func evmBalanceOracle(e *evmEnv, in evmInput, pre, obs evmObs, root *frameEv) string {
+//
+// Self-destruct: the contract's whole balance moves to the beneficiary; what a
+// self-destructed contract holds when it is deleted at the end of the transaction
+// (the self-beneficiary case, or value that reached it afterwards) is destroyed:
+// the sanctioned burn, returned as the second result.
+func evmBalanceOracle(e *evmEnv, in evmInput, pre, obs evmObs, root *frameEv) (string, *big.Int) {
+	burned := big.NewInt(0)
+	dead := map[int]bool{}
 	bal := make([]*big.Int, evmNActors)
 	for a := range bal {
 		bal[a] = bigOf(pre.Bal[a])
@@ -998,6 +1028,18 @@ func evmBalanceOracle(e *evmEnv, in evmInput, pre, obs evmObs, root *frameEv) st
 	walk = func(self int, body []evmInstr, ev *frameEv) {
 		child := 0
 		for _, ins := range body {
+			if ins.Op == "selfdestruct" {
+				// reached only when the frame did not fail before (the walk enters successful frames only)
+				if ins.Addr == self {
+					// the balance is credited to the contract and then zeroed: destroyed at once
+					burned.Add(burned, bal[self])
+					bal[self] = big.NewInt(0)
+				} else {
+					move(self, ins.Addr, new(big.Int).Set(bal[self]))
+				}
+				dead[self] = true
+				continue
+			}
 			if ins.Op != "call" && ins.Op != "pcall" {
 				continue
 			}
@@ -1030,6 +1072,10 @@ func evmBalanceOracle(e *evmEnv, in evmInput, pre, obs evmObs, root *frameEv) st
 			move(aO, in.To, bigOf(in.Value))
 			walk(in.To, in.Body, root)
 		}
+		for a := range dead {
+			burned.Add(burned, bal[a])
+			bal[a] = big.NewInt(0)
+		}
 	}
 	d := []string{}
 	for a := 0; a < evmNActors; a++ {
@@ -1038,9 +1084,9 @@ func evmBalanceOracle(e *evmEnv, in evmInput, pre, obs evmObs, root *frameEv) st
 		}
 	}
 	if len(d) > 0 {
-		return "bank balances differ from before + received - paid/delegated: " + strings.Join(d, "; ")
+		return "bank balances differ from before + received - paid/delegated: " + strings.Join(d, "; "), burned
 	}
-	return ""
+	return "", burned
 }
 
 // ---------------------------------------------------------------- features and finding classes
@@ -1101,6 +1147,24 @@ func evmFeatures(in evmInput, pre evmObs, root *frameEv) []string {
 	if strings.Contains(fs, "fail") {
 		f = append(f, "has-failed-frame")
 	}
+	var sdw func(self int, body []evmInstr)
+	sdw = func(self int, body []evmInstr) {
+		for _, ins := range body {
+			switch ins.Op {
+			case "selfdestruct":
+				if ins.Addr == self {
+					f = append(f, "selfdestruct:to-self")
+				} else {
+					f = append(f, "selfdestruct:to-other")
+				}
+			case "call":
+				if ins.Addr >= aC1 && ins.Addr <= aC3 {
+					sdw(ins.Addr, ins.Body)
+				}
+			}
+		}
+	}
+	sdw(in.To, in.Body)
 	if root != nil && root.Err != "" {
 		f = append(f, "tx-failed")
 	}
@@ -1225,7 +1289,25 @@ func evmGenP(r *Rng, caller int, s evmSetup) *evmPCall {
 	return p
 }
 
+// evmSdPct is the chance (percent) that a generated body ends in SELFDESTRUCT; evmGen raises it for a fifth of the cases
+var evmSdPct = 4
+
 func evmGenBody(r *Rng, self int, depth int, s evmSetup) []evmInstr {
+	body := evmGenBody0(r, self, depth, s)
+	if len(body) > 0 && body[len(body)-1].Op == "revert" {
+		return body
+	}
+	if r.Chance(evmSdPct) {
+		b := []int{aO, aP, aC1, aC2, aC3, self, self}[r.Intn(7)]
+		if r.Chance(8) {
+			b = 5 + r.Intn(9) // a precompile / module address (the bank refuses to credit those), or the escrow account
+		}
+		body = append(body, evmInstr{Op: "selfdestruct", Addr: b})
+	}
+	return body
+}
+
+func evmGenBody0(r *Rng, self int, depth int, s evmSetup) []evmInstr {
 	n := 1 + r.Intn(4)
 	body := []evmInstr{}
 	for i := 0; i < n; i++ {
@@ -1239,6 +1321,9 @@ func evmGenBody(r *Rng, self int, depth int, s evmSetup) []evmInstr {
 			body = append(body, evmInstr{Op: "balance", Addr: r.Intn(5)})
 		case k < 62 && depth < 3:
 			t := []int{aC1, aC2, aC3, aP, aO}[r.Intn(5)]
+			if evmSdPct > 10 && r.Chance(50) {
+				t = []int{aC1, aC2, self}[r.Intn(3)] // few contracts, called repeatedly: life after self-destruct
+			}
 			ins := evmInstr{Op: "call", Addr: t, Catch: r.Chance(75), Record: r.Chance(40)}
 			if r.Chance(45) {
 				ins.Value = fmt.Sprint(1 + r.Intn(50))
@@ -1309,7 +1394,12 @@ func evmGen(r *Rng) evmInput {
 		}
 	} else {
 		in.To = aC1 + r.Intn(3)
+		evmSdPct = 4
+		if r.Chance(20) {
+			evmSdPct = 35
+		}
 		in.Body = evmGenBody(r, in.To, 1, s)
+		evmSdPct = 4
 	}
 	return in
 }
